@@ -189,7 +189,7 @@ func TestVerif_C11(t *testing.T) {
 		ctx    context.Context
 		id     restic.ID
 	}
-	for _, variant := range []string{"plain", "cancel"} {
+	for _, variant := range []string{"plain", "cancel", "slow-upload"} {
 		variant := variant
 		sc := crashx.Scenario{
 			Property: "C11", Name: "backup/" + variant, Base: fx.base, Sem: fx.sem,
@@ -221,7 +221,7 @@ func TestVerif_C11(t *testing.T) {
 				p.id = id
 				return err
 			},
-			NoFaultFailureIsViolation: variant == "plain",
+			NoFaultFailureIsViolation: variant != "cancel",
 			StateOracle: func(ctx context.Context, c crashx.Crash) []string {
 				probs := oracle.Verify(ctx, c.State, oracle.Password, fx.expect, oracle.VerifyOpts{ReadData: true})
 				probs = append(probs, verifC11Listed(ctx, c.State, fx)...)
@@ -295,6 +295,15 @@ func TestVerif_C11(t *testing.T) {
 				}
 				return oracle.Verify(ctx, run.Store.Snapshot(), oracle.Password, exp, oracle.VerifyOpts{ReadData: true})
 			},
+		}
+		if variant == "slow-upload" {
+			// an upload that stalls for 11 minutes makes the pending in-memory index "old": restic then writes
+			// preliminary index files during the backup, which must never name a pack that is not uploaded yet
+			sc.Faults = []string{"ok"}
+			// one connection: packs are uploaded one after the other, so a later pack is handled after the stall
+			sc.Backend = func(be *gatebe.Backend) { be.Conns = 1 }
+			sc.TimeAction = true
+			sc.TimeQuantum = 11 * time.Minute
 		}
 		if variant == "cancel" {
 			// context cancellation as a scenario action at every point (one deviation); faults off in this variant
